@@ -449,7 +449,9 @@ func withRT(files map[string]string) map[string]string {
 		out["prog/"+n] = c
 	}
 	for n, c := range gen.RuntimeFiles() {
-		out["prog/"+n] = c
+		if _, ok := out["prog/"+n]; !ok {
+			out["prog/"+n] = c
+		}
 	}
 	return out
 }
